@@ -170,6 +170,7 @@ def run(chk):
             chk.known_finding("builtin-prefix", "a struct/enum whose name starts with str, f32, f64, u<d> or i<d> cannot be used as a field type (the built-in prefix is lexed first)")
         else:
             fails.append({"kind": "type-name-with-builtin-prefix", "source": src, "outcome": out[0], "detail": str(out[1])[:300]})
+    history = []          # every text parsed so far in this process, in order (a failure may depend on what was parsed before)
     for _ in range(n):
         items = printer.gen_items(chk.rng)
         canon_toks = printer.tokens(items)
@@ -187,6 +188,7 @@ def run(chk):
         want_dict = expected_dict(items)
         trees = []
         for text in texts:
+            history.append(text)
             out = front_run.run_front({"main.fcp": text})
             cases.append(front_run.case_term({"main.fcp": text}, "main.fcp", out, oracle)); meta.append(text)
             chk.count(text, nontrivial=len(items) >= 3, sample={"source": text[:600], "outcome": out[0]})
@@ -200,7 +202,8 @@ def run(chk):
             trees.append(got)
             diff = first_difference(want_dict, got)
             if diff and tree_summary(out[1]) == want:
-                fails.append({"kind": "parsing-is-not-the-inverse-of-printing", "source": text, "first_difference (description vs parsed)": diff})
+                fails.append({"kind": "parsing-is-not-the-inverse-of-printing", "source": text, "first_difference (description vs parsed)": diff,
+                              "texts_parsed_before_in_the_same_process (last 3; the replay parses them first)": history[-4:-1]})
         if len(trees) > 1 and any(t != trees[0] for t in trees[1:]):
             fails.append({"kind": "result-depends-on-formatting-or-optional-separators", "sources": texts})
     chk.log(f"{len(cases)} sources; implementation-side failures: {len(fails)}")
@@ -246,6 +249,8 @@ def finish(chk, fails, mism, meta, broken, props):
 def replay(chk, rep):
     print(json.dumps(rep, indent=1, default=repr)[:3000])
     src = rep.get("source")
+    for earlier in rep.get("texts_parsed_before_in_the_same_process (last 3; the replay parses them first)") or []:
+        front_run.run_front({"main.fcp": earlier})
     if src:
         out = front_run.run_front({"main.fcp": src})
         print(out[0], out[1] if out[0] != "ok" else out[1].to_dict())
